@@ -36,7 +36,7 @@ type vLayout struct {
 }
 
 func buildC07Universe(u *vUniverse, thorough bool) *vLayout {
-	ly := &vLayout{L: 1640, X: 700, W: 640, F: 30}
+	ly := &vLayout{L: 1640, X: 700, W: 820, F: 30}
 	if thorough {
 		ly = &vLayout{L: 3700, X: 1600, W: 1500, F: 40}
 	}
@@ -234,6 +234,21 @@ func (g *vGen) template(k int, nNodes int) ([][][2]int, []string, string) {
 		dags[1] = [][2]int{{ly.trunk, ly.trunk + b}, {ly.by, ly.by + r.Intn(ly.X)}, {ly.leaf1 + 50, ly.leaf1 + 50 + r.Intn(40)}}
 		name = "mix"
 		feats = append(feats, "mix")
+	case 6: // a peer that is BEHIND with a wide, shallow DAG: > 650 transactions on page 0 the other side lacks, the other several pages ahead
+		short := ly.wideAt + 1 + r.Intn(100) // still on page 0
+		w := 700 + r.Intn(ly.W-700+1)
+		long := ly.L - r.Intn(60)
+		if r.Intn(4) == 0 {
+			long = pg + 40 + r.Intn(pg) // only one or two pages ahead
+		}
+		behind, ahead := 1, 0
+		if r.Intn(2) == 0 {
+			behind, ahead = 0, 1
+		}
+		dags[behind] = [][2]int{{ly.trunk, ly.trunk + short}, {ly.wide, ly.wide + w}}
+		dags[ahead] = [][2]int{{ly.trunk, ly.trunk + long}}
+		name = fmt.Sprintf("widepage0-behind-%d", w)
+		feats = append(feats, "behind-peer-wide-page0", fmt.Sprintf("pages-ahead=%d", long/pg))
 	case 5: // equal DAGs (stability) or tiny difference
 		a := 50 + r.Intn(ly.L-60)
 		dags[0] = [][2]int{{ly.trunk, ly.trunk + a}}
@@ -475,7 +490,7 @@ func (g *vGen) runScenario(idx int, dir string) vVerdict {
 	if s.t != nil && os.Getenv("VERIF_TIER") == "thorough" && idx%5 == 4 {
 		nNodes = 3
 	}
-	k := idx % 6
+	k := idx % 7
 	dags, feats, name := g.template(k, nNodes)
 	g.freshNext = [3]int{0, 0, g.freshNext[2]}
 	withDid := idx%3 == 0
